@@ -13,7 +13,7 @@ open Cppcheck.Wire (Str)
 /- ---- sample data for the `example`s ------------------------------------------------------------------------------ -/
 
 def mkSuppr (id file : String) (line : Int) (inl : Bool := false) : Suppr :=
-  { errorId := id.toList, fileName := file.toList, lineNumber := line, symbolName := [], hash := 0, thisAndNextLine := false,
+  { errorId := id.toList, fileName := file.toList, lineNumber := line, symbolName := [], macroName := [], hash := 0, thisAndNextLine := false,
     type := .unique, lineBegin := noLine, lineEnd := noLine, column := if inl then 1 else 0, isInline := inl, isPolyspace := false,
     checked := false, matched := false }
 
@@ -166,11 +166,14 @@ theorem hash_lost_on_wire_counterexample :
     workerReport true worker = [] := by
   decide
 
-/-- with the repair, what a worker sends keeps its key on the wire whenever the entry has no `thisAndNextLine` flag and a
-    line number only together with a file name: the parent finds its own entry instead of adding a twin -/
+/-- what a worker sends has no hash, and keeps its key on the wire whenever the entry is a plain one: no `thisAndNextLine`
+    flag, type unique without block lines and macro name, a line number only together with a file name — the parent then
+    finds its own entry instead of adding a twin (inline block / macro / file suppressions do change their key: the parent
+    holds them as a separate `unique` entry with the same flags) -/
 theorem wire_keeps_key (st : State) (m : Suppr) (hm : m ∈ workerReport true st) :
     ∃ e ∈ st, m = wire e ∧ e.hash = 0 ∧
-      (e.thisAndNextLine = false → (e.fileName = [] → e.lineNumber = noLine) → key m = key e) := by
+      (e.thisAndNextLine = false → e.type = .unique → e.lineBegin = noLine → e.lineEnd = noLine → e.macroName = [] →
+        (e.fileName = [] → e.lineNumber = noLine) → key m = key e) := by
   simp only [workerReport, List.mem_map, List.mem_filter, Bool.and_eq_true, Bool.not_eq_true', Bool.and_eq_false_imp,
     decide_eq_false_iff_not, Bool.true_and] at hm
   rcases hm with ⟨e, ⟨he, hh, _⟩, rfl⟩
@@ -179,8 +182,8 @@ theorem wire_keeps_key (st : State) (m : Suppr) (hm : m ∈ workerReport true st
     intro hne
     exact hh (by omega)
   refine ⟨e, he, rfl, h0, ?_⟩
-  intro ht hl
-  simp only [key, wire, h0, ht]
+  intro ht hty hb hE hmac hl
+  simp only [key, wire, h0, ht, hty, hb, hE, hmac]
   by_cases hf : e.fileName = []
   · simp [hf, hl hf]
   · have : e.fileName.isEmpty = false := by cases hfe : e.fileName <;> simp_all
